@@ -7,6 +7,7 @@
 package pfcpiface
 
 import (
+	"os"
 	"context"
 	"encoding/binary"
 	"fmt"
@@ -198,9 +199,14 @@ func newVInstWith(cfg vCfg, old any) *vInst {
 		srv.attach(in.fb)
 		b := &bess{}
 		u.datapath = b
-		if cfg.FullStartup {
+		if cfg.FullStartup || os.Getenv("VERIF_BESS_FAST") == "" {
+			// the real SetUpfInfo over gRPC (about a millisecond): whatever it initialises is initialised; afterwards the
+			// commands go to the fake directly unless the full path was asked for
 			*bessIP = addr
 			b.SetUpfInfo(u, conf)
+			if !cfg.FullStartup {
+				b.client = in.fb
+			}
 		} else {
 			b.readQciQosMap(conf)
 			b.endMarkerChan = make(chan []byte, 1024)
@@ -257,7 +263,7 @@ func (in *vInst) close() {
 	if in.p4 != nil {
 		in.p4.close()
 	}
-	if in.bs != nil && in.cfg.FullStartup && in.bs.conn != nil {
+	if in.bs != nil && in.bs.conn != nil && in.bs.conn != fbReadyCon {
 		in.bs.conn.Close()
 	}
 }
